@@ -97,6 +97,25 @@ theorem wireshark_unsigned (s : Sig) (p : List Nat) (h : inFrame s p.length) (hs
   have hfix : wiresharkSignFix s = none := by simp [wiresharkSignFix, hs]
   simp only [wiresharkField_eq, Spec.wiresharkValue, wsBuf_eq, hfix, tvb_eq_specRaw s p h]
 
+/-- the sign probe reads the first bit of the very field whose value is fixed up, so the value computed
+with the probe where the generated code reads it is the one of `wireshark_sign_fixup` -/
+theorem wireshark_probe_is_msb (s : Sig) (p : List Nat) (n : Nat) (fix : Option Nat) :
+    let w := wiresharkField n s
+    Spec.wiresharkValueProbe p w.1 w.2.1 w.2.2 (wiresharkProbe n s).1 (wiresharkProbe n s).2 fix
+      = Spec.wiresharkValue p w.1 w.2.1 w.2.2 fix := by
+  simp [Spec.wiresharkValueProbe, Spec.wiresharkValue, wiresharkProbe]
+
+/-- FIBEX base data type: signedness, float-ness and a wide enough container, for every width 1..64
+(a finite table: all 65 x 2 x 2 combinations are evaluated by the kernel) -/
+theorem fibex_base_type_table :
+    ∀ n : Fin 65, ∀ sg fl : Bool, 1 ≤ n.val → (fl = true → n.val = 32 ∨ n.val = 64) →
+      Spec.fibexTypeOk (fibexBaseTypeOf n.val sg fl) n.val sg fl = true := by
+  decide +kernel
+
+theorem fibex_base_type_ok (s : Sig) (h1 : 1 ≤ s.size) (h2 : s.size ≤ 64) (hf : s.isFloat = true → s.size = 32 ∨ s.size = 64) :
+    Spec.fibexTypeOk (fibexBaseType s) s.size s.signed s.isFloat = true :=
+  fibex_base_type_table ⟨s.size, by omega⟩ s.signed s.isFloat h1 hf
+
 /-! non-vacuity: 12-bit Motorola signal with internal start 4 -/
 example : dbcStartOf { name := "s", start := 4, size := 12, little := false } = 3 := by decide
 example : lsbStartOf { name := "s", start := 4, size := 12, little := false } = 8 := by decide
